@@ -627,6 +627,10 @@ TOKEN_PATTERNS = [
 ]
 
 
+# Escape sequences recognised inside quoted strings (inverse of the emitter's escaping)
+_ESCAPE_SEQUENCE_PATTERN = re.compile(r"\\([\"\\nt])")
+_ESCAPE_SEQUENCES = {'"': '"', "\\": "\\", "n": "\n", "t": "\t"}
+
 # GH#145: Pattern to detect malformed envelope markers
 # Matches ===...=== with any content between
 _INVALID_ENVELOPE_PATTERN = re.compile(r"===([^=\n]*)===")
@@ -897,11 +901,10 @@ def tokenize(content: str, lenient: bool = False) -> tuple[list[Token], list[Any
                     else:
                         # Single-quoted string: remove " from both ends
                         value = matched_text[1:-1]
-                    # Process escape sequences
-                    value = value.replace(r"\"", '"')
-                    value = value.replace(r"\\", "\\")
-                    value = value.replace(r"\n", "\n")
-                    value = value.replace(r"\t", "\t")
+                    # Process escape sequences in a single left-to-right pass, so that an
+                    # escaped backslash followed by 'n'/'t' (written \\n) stays backslash + letter
+                    # instead of being re-interpreted by a later replace() pass.
+                    value = _ESCAPE_SEQUENCE_PATTERN.sub(lambda m: _ESCAPE_SEQUENCES[m.group(1)], value)
                 elif token_type == TokenType.NUMBER:
                     # Convert to int or float, but preserve raw lexeme for fidelity (GH#66)
                     if "." in matched_text or "e" in matched_text.lower():
